@@ -14,11 +14,12 @@ import (
 type modset struct {
 	fields map[string]types.Type
 	vars   map[*types.Var]bool
+	whole  map[*types.Var]bool // assigned as a whole (not only element writes)
 	calls  map[string]bool
 }
 
 func newModset() *modset {
-	return &modset{fields: map[string]types.Type{}, vars: map[*types.Var]bool{}, calls: map[string]bool{}}
+	return &modset{fields: map[string]types.Type{}, vars: map[*types.Var]bool{}, whole: map[*types.Var]bool{}, calls: map[string]bool{}}
 }
 
 func (m *modset) union(o *modset) bool {
@@ -248,20 +249,34 @@ func (e *Engine) recordCall(call *ast.CallExpr, ms *modset) {
 }
 
 func (e *Engine) recordWrite(lhs ast.Expr, ms *modset, define bool) {
+	e.recordWriteE(lhs, ms, define, false)
+}
+
+func (e *Engine) recordWriteE(lhs ast.Expr, ms *modset, define bool, elem bool) {
 	switch x := lhs.(type) {
 	case *ast.ParenExpr:
-		e.recordWrite(x.X, ms, define)
+		e.recordWriteE(x.X, ms, define, elem)
 	case *ast.Ident:
 		if x.Name == "_" {
 			return
 		}
 		if v, ok := e.info.Uses[x].(*types.Var); ok {
 			ms.vars[v] = true
+			if !elem {
+				ms.whole[v] = true
+			}
 		} else if v, ok := e.info.Defs[x].(*types.Var); ok && v != nil {
 			ms.vars[v] = true
+			if !elem {
+				ms.whole[v] = true
+			}
 		}
 	case *ast.IndexExpr:
-		e.recordWrite(x.X, ms, false)
+		isSlice := false
+		if t := e.info.TypeOf(x.X); t != nil {
+			_, isSlice = under(t).(*types.Slice)
+		}
+		e.recordWriteE(x.X, ms, false, isSlice)
 	case *ast.StarExpr:
 		e.recordWrite(x.X, ms, false)
 	case *ast.SelectorExpr:
@@ -305,11 +320,18 @@ func (e *Engine) loopMods(c *FuncCtx, n ast.Node) ([]*types.Var, *modset) {
 	for callee := range ms.calls {
 		ms.union(e.modsetOf(callee))
 	}
+	body := n
+	switch x := n.(type) {
+	case *ast.ForStmt:
+		body = x.Body
+	case *ast.RangeStmt:
+		body = x.Body
+	}
 	var vars []*types.Var
 	for v := range ms.vars {
 		// only variables that exist outside the loop matter; inner ones are
 		// (re)declared by the body itself
-		if v.Pos() < n.Pos() || v.Pos() > n.End() {
+		if v.Pos() < body.Pos() || v.Pos() > n.End() {
 			vars = append(vars, v)
 		}
 	}
